@@ -363,7 +363,13 @@ func Eq(a, b *Term) *Term {
 			return BoolC(d.C == 0)
 		}
 	}
-	return &Term{Op: "=", S: BoolSort, Args: []*Term{a, b}}
+	r := &Term{Op: "=", S: BoolSort, Args: []*Term{a, b}}
+	if a.S.K == KBV && a.S.W <= 8 && (a.IsConst() || b.IsConst()) {
+		if f, ok := domFold(r); ok {
+			return f
+		}
+	}
+	return r
 }
 
 func Ne(a, b *Term) *Term { return Not(Eq(a, b)) }
@@ -760,7 +766,13 @@ func cmp(op string, a, b *Term) *Term {
 			return FalseT
 		}
 	}
-	return &Term{Op: op, S: BoolSort, Args: []*Term{a, b}}
+	r := &Term{Op: op, S: BoolSort, Args: []*Term{a, b}}
+	if w <= 8 && (a.IsConst() || b.IsConst()) {
+		if f, ok := domFold(r); ok {
+			return f
+		}
+	}
+	return r
 }
 
 func ULt(a, b *Term) *Term { return cmp("bvult", a, b) }
